@@ -41,6 +41,10 @@ type GuardSpec struct {
 	Desc   string
 	Main   []GuardPat // alternative spellings; at least one If must match
 	Unless []GuardPat // edges on which the guard is legitimately not required (enabling condition false)
+	// RejectForm: the guard sits in a loop body (checked once per element), so
+	// instead of must-pass the rule is: from the rejecting edge no success exit
+	// is reachable.
+	RejectForm bool
 }
 
 // checkGuards verifies that every success exit of fn is reachable only through
@@ -76,6 +80,29 @@ func checkGuards(w *World, c *Check, rule, fnKey string, cls ExitClass, specs []
 			all = append(all, fa.MatchGuard(p)...)
 		}
 		gw := w.Pos(InstrPos(lastInstr(pass[0].From)))
+		if g.RejectForm {
+			bad := ""
+			for _, e := range pass {
+				rej := Edge{e.From, 1 - e.Succ}
+				te := map[Edge]bool{}
+				tb := map[*ssa.BasicBlock]bool{}
+				for _, x := range exits {
+					if x.In == nil {
+						tb[x.Ret.Block()] = true
+					} else {
+						te[*x.In] = true
+					}
+				}
+				rm := map[Edge]bool{e: true}
+				if te[rej] {
+					bad = "the rejecting edge is itself a success exit"
+				} else if p := pathTo(rej.To(), rm, te, tb); p != nil {
+					bad = "from the rejecting edge a success exit is still reachable: " + fa.DescribePath(p)
+				}
+			}
+			c.Decide(bad == "", rule, fnKey, g.Name, gw, g.Desc, bad)
+			continue
+		}
 		if path := fa.PathAvoiding(all, exits); path != nil {
 			c.Fail(rule, fnKey, g.Name, gw, g.Desc,
 				"a path reaches a success exit without passing the accepting edge of this guard: "+fa.DescribePath(path))
